@@ -1469,9 +1469,14 @@ class GeoboxTiles:
     ) -> Dict[Tuple[int, int], List[Tuple[int, int]]]:
         deps: Dict[Tuple[int, int], List[Tuple[int, int]]] = {}
 
+        nx, ny = src.base.shape.xy
         for idx in self._all_tiles():
             bbox = self.pix_bbox(idx).transform(A).round()
-            src_idx = list(src.tiles(bbox))
+            if bbox.right <= 0 or bbox.left >= nx or bbox.top <= 0 or bbox.bottom >= ny:
+                # completely outside of src (tile lookup clamps to the nearest edge tile)
+                src_idx = []
+            else:
+                src_idx = list(src.tiles(bbox))
             deps[idx] = src_idx
 
         return deps
